@@ -179,7 +179,7 @@ func c15Scenarios() []c15Scenario {
 			case "BK":
 				b.Vals[o].Set(reflect.ValueOf(map[bool]string{true: "yes", false: "no"}))
 			case "HX":
-				b.Vals[o].Set(reflect.ValueOf(map[int]string{2: "a", 16: "b", 26: "c"}))
+				b.Vals[o].Set(reflect.ValueOf(map[int]string{2: "a", 10: "b", 255: "c", 171: "d"})) // base 16: 2, a, ff, ab (three of them are no decimal numerals)
 			case "N2":
 				b.Vals[o].Set(reflect.ValueOf(map[string]string{"2": "a", "10": "b", "1a": "c", "01": "d", "1": "e"}))
 			}
